@@ -961,9 +961,12 @@ impl AstNode for UtxoRef {
         let txid = hex::decode(raw_txid)
             .map_err(|_| Error::custom("invalid hex in utxo ref (odd number of digits)", &pair))?;
 
+        // an output index has 32 bits in the IR and on chain: a wider literal used to wrap around
+        // at lowering and point to another output of the same transaction
         let index = raw_output_ix
-            .parse()
-            .map_err(|_| Error::custom("utxo ref output index out of range", &pair))?;
+            .parse::<u32>()
+            .map_err(|_| Error::custom("utxo ref output index out of range", &pair))?
+            .into();
 
         Ok(UtxoRef { txid, index, span })
     }
